@@ -123,7 +123,7 @@ let () =
             (match admission s f (parse_first fr) with
             | Admit -> "ADMIT"
             | Reject_no_connack -> "SILENT"
-            | Reject_connack ClientIdentifierNotValid -> "CONNACK ClientIdentifierNotValid")
+            | Reject_connack -> "CONNACK ClientIdentifierNotValid")  (* the one-constructor code type is erased by extraction *)
       | [ "EPI"; r; w ] ->
           let e = classify (parse_start r) in
           let d, p = epilogue e (parse_wait w) in
